@@ -86,6 +86,17 @@ pub fn exec(op: &str, a: &[&str]) -> Option<String> {
             let pre = &s.0[..s.0.len() - d.len()];
             Some(format!("ok:{}:{}:{}:{}", hexd(pre), s.0.len(), compact(&s.0), eval_summary(&s, flags)))
         }
+        // c16.pushn <flags> <data-spec>...: several pushes built one after the other, then evaluated: every item, bottom first
+        "c16.pushn" => {
+            let flags: u32 = a[0].parse().unwrap();
+            let mut s = Script::new(); for sp in &a[1..] { s.append_data(&expand(sp)); }
+            let mut chk = Scripted::parse("-:t:t");
+            let ev = match s.eval_with_stack(&mut chk, flags, None, None, None, None) {
+                Ok((st, alt, _)) => format!("ok:{}:{}:{}", st.len(), alt.len(), st.iter().map(|i| compact(i)).collect::<Vec<_>>().join(",")),
+                Err(e) => err_class(&e).replace(':', "."),
+            };
+            Some(format!("ok:{}:{}:{}", s.0.len(), compact(&s.0), ev))
+        }
         // c16.num <n> <flags>
         "c16.num" => {
             let (Ok(n), Ok(flags)) = (a[0].parse::<i32>(), a[1].parse::<u32>()) else { return Some("bad-request".into()) };
@@ -231,6 +242,19 @@ pub fn gen(tier: &str, rng: &mut Rng, out: &mut Vec<String>) {
     for s in text_scripts(tier, &mut trng) { out.push(format!("c16.print {}", hexd(&s))); }
     if text_only { return; }
     // pushes
+    // pushes that are NOT the first element of the script: two or three pushes of lengths around every length-class boundary
+    {
+        let edges = [0usize, 1, 2, 75, 76, 77, 255, 256, 257, 300, 700, 65535, 65536, 65537];
+        for &l1 in &edges { for &l2 in &edges {
+            if l1 + l2 > 140_000 && !thorough { continue; }
+            out.push(format!("c16.pushn {} {} {}", if (l1 + l2) % 3 == 0 { 1 } else { 0 }, data_spec(rng, l1), data_spec(rng, l2)));
+        } }
+        for _ in 0..(if thorough { 2000 } else { 150 }) {
+            let n = 2 + rng.below(3) as usize;
+            let specs: Vec<String> = (0..n).map(|_| { let l = match rng.below(6) { 0 => rng.range(0, 76), 1 => rng.range(76, 256), 2 => rng.range(256, 1000), 3 => rng.range(1000, 70_000), 4 => *rng.pick(&[75u64, 76, 255, 256, 65535, 65536]), _ => rng.range(0, 600) } as usize; data_spec(rng, l) }).collect();
+            out.push(format!("c16.pushn {} {}", rng.below(2), specs.join(" ")));
+        }
+    }
     for len in push_lengths(tier, rng) { let flags = if rng.chance(1, 3) { 1 } else if rng.chance(1, 10) { rng.next() as u32 } else { 0 }; out.push(format!("c16.push {} {}", data_spec(rng, len), flags)); }
     // numbers
     for v in [0i64, 1, -1, 16, 17, -16, -17, 75, 76, 127, 128, -127, -128, 255, 256, 32767, 32768, -32767, -32768, 8388607, 8388608, -8388607, -8388608, 2147483647, -2147483647, -2147483648, 2147483646, -2147483646] {
